@@ -1505,3 +1505,116 @@ func ruleChainLinks(rule string) ruleFn {
 		c.Floor(rule, 7)
 	}
 }
+
+// ---------------------------------------------------------------------------
+// Request hardening found in round 6 (each was a genuine defect of the pinned tree, see DESIGN.md)
+// ---------------------------------------------------------------------------
+
+func noSlash(term string) []string {
+	return []string{`!strings.Contains(` + term + `,"/")`, `!strings.ContainsAny(` + term + `,"/")`, `!strings.ContainsRune(` + term + `,47)`, `!strings.ContainsAny(` + term + `,"/\\")`}
+}
+
+func ruleAlignedResize(rule string) ruleFn {
+	return func(c *Ctx) {
+		c.Doc(rule, "Replica.Resize truncates the chain and records the new size only for a size that is a multiple of the sector size: any other size is accepted by truncate(2) but refused by construct() on the next open ('Size not a multiple of sector size'), i.e. the acknowledged resize makes the replica unopenable")
+		fn := c.Anchor(rule, fRep+"Resize")
+		if fn == nil {
+			return
+		}
+		R := NewRenderer(fn)
+		tr := CallsTo(fn, "syscall.Truncate")
+		var sz string
+		for _, in := range tr {
+			sz = R.V(in.(*ssa.Call).Call.Args[1])
+		}
+		sites := append([]ssa.Instruction{}, tr...)
+		for _, s := range StoresTo(fn, "Info", "Size") {
+			sites = append(sites, s)
+		}
+		if sz == "" || len(sites) == 0 {
+			// the truncation may live in a helper (C16-REPL follows it); the size store is in Resize
+			for _, ea := range allAtoms(fn, R) {
+				if s := ea.Atom.String(); strings.HasPrefix(s, "-$0.info.Size +") && strings.HasSuffix(s, " >=0") {
+					sz = strings.TrimSuffix(strings.TrimPrefix(s, "-$0.info.Size +"), " >=0")
+				}
+			}
+		}
+		if sz == "" || len(sites) == 0 {
+			c.Bad(rule, FnName(fn)+" | aligned size", c.P.Pos(fn.Pos()), "could not identify the new size / the sites that apply it", nil)
+			return
+		}
+		c.Guard(rule, fn, sites, "apply the new size", nil,
+			atom("size is a multiple of the sector size", "+mod(+"+sz+",+$0.info.SectorSize) ==0", "+mod(+"+sz+",+$0.volume.sectorSize) ==0", "+mod(+"+sz+",+4096) ==0"))
+		c.Floor(rule, 2)
+	}
+}
+
+func ruleNamePath(rule string) ruleFn {
+	return func(c *Ctx) {
+		c.Doc(rule, "names that reach the file system through management requests cannot leave the replica directory: validDiskName accepts no name with a path separator (volume-head-/../volume-head-003.img has the right prefix and suffix and resolves to the live head), and createDisk builds a snapshot only from a name without one (snapshot x/../y creates y.img while the head's parent is recorded as volume-snap-x/../y.img: the chain cannot be reopened)")
+		if fn := c.Anchor(rule, "replica.validDiskName"); fn != nil {
+			var sites []ssa.Instruction
+			for _, r := range Returns(fn) {
+				if !provablyNonNilError(r.Results[0]) {
+					sites = append(sites, r)
+				}
+			}
+			c.Guard(rule, fn, sites, "accept the name", nil, atom("no path separator in the name", noSlash("$0")...))
+		}
+		if fn := c.Anchor(rule, fRep+"createDisk"); fn != nil {
+			c.Guard(rule, fn, CallsTo(fn, fRep+"createNewHead"), "first effect", nil, atom("no path separator in the snapshot name", noSlash("$1")...))
+		}
+		c.Floor(rule, 3)
+	}
+}
+
+func ruleReplaceSource(rule string) ruleFn {
+	return func(c *Ctx) {
+		c.Doc(rule, "ReplaceDisk unlinks its source after linking it to the target: the source must not be the live head (replacedisk {target: x, source: <head>} would delete the file all writes go to)")
+		fn := c.Anchor(rule, fRep+"ReplaceDisk")
+		if fn == nil {
+			return
+		}
+		sites := append(CallsTo(fn, fRep+"hardlinkDisk"), CallsTo(fn, fRep+"rmDisk")...)
+		sites = append(sites, CallsTo(fn, fRep+"removeDiskNode")...)
+		c.Guard(rule, fn, sites, "replace", lockOrUnlock, atom("source is not the head", neAtom("$0.info.Head", "$2")))
+		c.Floor(rule, 3)
+	}
+}
+
+func ruleChildrenForgotten(rule string) ruleFn {
+	return func(c *Ctx) {
+		c.Doc(rule, "removeDiskNode forgets the children entry of the disk it removes together with the disk: a stale entry gives a later snapshot of the same name two children (it can then not be removed, and ListDisks differs from what a reopen shows)")
+		fn := c.Anchor(rule, fRep+"removeDiskNode")
+		if fn == nil {
+			return
+		}
+		R := NewRenderer(fn)
+		isDel := func(m string) func(ssa.Instruction) bool {
+			return func(in ssa.Instruction) bool {
+				cl, ok := in.(*ssa.Call)
+				return ok && callMatches(cl, "builtin:delete") && R.V(cl.Call.Args[0]) == m && R.V(cl.Call.Args[1]) == "$1"
+			}
+		}
+		n := 0
+		eachInstr(fn, func(in ssa.Instruction) {
+			if !isDel("$0.diskData")(in) {
+				return
+			}
+			n++
+			ws := Query{Fn: fn, Start: in, Gen: isDel("$0.diskChildrenMap"), IsSite: func(x ssa.Instruction) bool {
+				r, ok := x.(*ssa.Return)
+				return ok && len(r.Results) == 1 && !provablyNonNilError(r.Results[0])
+			}}.Run()
+			key := fmt.Sprintf("%s | disk removed from the map[%d] | children entry removed too", FnName(fn), n)
+			if len(ws) == 0 {
+				c.OK(rule, key, c.P.InstrPos(in), "delete(diskChildrenMap, name) before every success return", true)
+			} else {
+				c.Bad(rule, key, c.P.InstrPos(in), "the disk is deleted from diskData but its entry in diskChildrenMap survives", c.witness(ws[0]))
+			}
+		})
+		if n < 2 {
+			c.Undecided(rule, "vacuity-floor", "", fmt.Sprintf("only %d deletions of the removed disk found", n))
+		}
+	}
+}
